@@ -145,6 +145,7 @@ class Module(object):
         self.aliases = hdr['aliases']
         self.decls = hdr['decls']
         self.files = hdr['files']
+        self.enums = hdr.get('enums', {})
         self.triple = hdr['triple']
         self._raw = {}
         self._order = []
